@@ -269,7 +269,12 @@ class Verifier(Engine):
         fr.case_label = ""
         st = State()
         for name, ty in c.params:
-            v, facts = sym_value(name, parse_type(ty or "int"))
+            pty = parse_type(ty or "int")
+            if isinstance(pty, tuple) and pty[0] == "record":
+                from .heapmodel import sym_record
+                v, facts = sym_record(self, st, pty[1], name)
+            else:
+                v, facts = sym_value(name, pty)
             st.env[name] = v
             st.assume(*facts)
         for r in c.requires:
@@ -299,10 +304,13 @@ class Verifier(Engine):
             if g.where != where:
                 continue
             if where in ("after", "before"):
-                if norm_src(g.text) != key:
+                if g.text.endswith("..."):
+                    if not key.startswith(g.text[:-3]):
+                        continue
+                elif norm_src(g.text) != key:
                     continue
                 cnt = self.fr.__dict__.setdefault("anchor_counts", {})
-                if g.nth != nth_counter:
+                if g.nth is not None and g.nth != nth_counter:
                     continue
                 self.fr.anchors_used.add(id(g))
             elif where in ("loop_head", "loop_exit"):
@@ -495,6 +503,17 @@ class Verifier(Engine):
                     nxt += self.assign(s, t2, x, node)
                 states = nxt
             return states
+        if isinstance(tgt, ast.Attribute) and isinstance(tgt.value, ast.Name) \
+                and isinstance(st.env.get(tgt.value.id), VRecord) and st.env[tgt.value.id].cls != "cenum":
+            # attribute assignment on a local that holds a record value (dataclass / cstruct snapshot obtained from a
+            # generator or constructor): functional update of the local; sound as long as no other reference to the
+            # same object is observed afterwards (listed as an assumption)
+            rec = st.env[tgt.value.id]
+            f = dict(rec.fields)
+            f[tgt.attr] = v
+            st.env[tgt.value.id] = VRecord(rec.cls, f)
+            self.fr.assumed_used.add(f"record-valued local `{tgt.value.id}` is not aliased (functional update on attribute assignment)")
+            return [st]
         if isinstance(tgt, ast.Attribute):
             outs = []
             for s, ov in self.ev(tgt.value, st):
@@ -704,6 +723,8 @@ class Verifier(Engine):
                             names.add(n.id)
                         if isinstance(n, (ast.Attribute, ast.Subscript)) and isinstance(n.ctx, ast.Store):
                             recv.add(ast.unparse(n.value))
+                            if isinstance(n.value, ast.Name):
+                                names.add(n.value.id)       # record-valued locals are updated functionally
                 if isinstance(node, ast.AugAssign) and isinstance(node.target, ast.Name):
                     recv.add(node.target.id)
             elif isinstance(node, ast.For):
